@@ -56,6 +56,14 @@ def deps(spec):
             d[f"/B/0.{i}"] = ["/A/0"]
         d["/C1/0"] = [f"/B/0.{i}" for i in range(spec["n"])]
         d["/C2/0"] = [f"/B/0.{i}" for i in range(spec["n"])]
+        if spec.get("e"):
+            d["/E/0"] = ["/A/0"]
+        return d
+    if k == "filefan":
+        d = {"/A/0": []}
+        for i in range(spec["k"]):
+            d[f"/B{i}/0"] = ["/A/0"]
+        d["/D/0"] = [f"/B{i}/0" for i in range(spec["k"])]
         return d
     if k in ("twojobs", "filediamond"):
         return {"/A/0": [], "/B/0": ["/A/0"], "/C/0": ["/A/0"], "/D/0": ["/B/0", "/C/0"]}
